@@ -88,6 +88,12 @@ func (p *TriggerPool) maxIterationsReached() {
 func (p *TriggerPool) sendJobsForExecution(numJobs int) {
 	p.jobsAvailableCond.L.Lock()
 
+	// once stopped nothing more may be scheduled: a tick racing with the stop
+	// would otherwise leave work behind that is neither started nor dropped
+	if !p.running() {
+		numJobs = 0
+	}
+
 	jobsDiscarded := p.jobsToExecute.set(numJobs)
 	p.jobsAvailableCond.Broadcast()
 
